@@ -77,7 +77,9 @@ class RawFunctionDecl(ParsableDef):
             raise GuppyError(BodyNotEmptyError(func_ast.body[0], self.name))
         # Make sure we won't need monomorphization to compile this declaration
         if mono_params := require_monomorphization(ty.params):
-            raise GuppyError(MonomorphizeError(func_ast, self.name, mono_params.pop()))
+            # Report the first one in declaration order (sets are unordered)
+            mono_param = min(mono_params, key=lambda p: p.idx)
+            raise GuppyError(MonomorphizeError(func_ast, self.name, mono_param))
         return CheckedFunctionDecl(
             self.id,
             self.name,
